@@ -471,7 +471,7 @@ func (e *Env) upperCap(k *scoreKit) {
 	for _, l := range k.levels {
 		f := l.Method("Score")
 		sf := e.P.SSAFunc(f)
-		leaves, err := ir.Leaves(sf, ir.LeafOptions{})
+		leaves, err := k.leavesOf(sf) // unexported float helpers inlined by substitution
 		if err != nil {
 			c.Undecided("upper-cap", fname(f), e.P.Pos(f.Pos()), err.Error())
 			continue
